@@ -744,7 +744,15 @@ class PipeFunc(Generic[T]):
         """Return the type annotation of the wrapped function's output."""
         func = self.func
         if isinstance(func, _NestedFuncWrapper):
-            func = func.func
+            # The wrapped callable returns a dict of all results; the outputs have
+            # the annotations of the functions inside the nested pipeline.
+            inner: dict[str, Any] = {}
+            for f in self.pipeline.functions:  # type: ignore[attr-defined]
+                inner.update(f.output_annotation)
+            return {
+                self._renames.get(name, name): inner.get(name, NoAnnotation)
+                for name in at_least_tuple(self._output_name)
+            }
         if inspect.isclass(func) and isinstance(self.output_name, str):
             return {self.output_name: func}
         if self._output_picker is None:
